@@ -88,6 +88,12 @@ CALLERS = [
     ([], "def test(a: bool, b: bool) -> bool:\n    def inner(x: bool, y: bool) -> bool:\n        return x and not y\n    return inner(b, a)"),
     ([], "def test(a: Qint[2]) -> Qint[2]:\n    def inner(x: Qint[2]) -> Qint[2]:\n        return x + 1\n    return inner(inner(a))"),
     ([], "def test(a: Tuple[bool, Qint[2]]) -> Qint[2]:\n    def inner(x: Qint[2]) -> Qint[2]:\n        return x + 1\n    return inner(a[1])"),
+    # an inline definition is a scope of its own: its parameters / locals named like the caller's (fix a54a0af)
+    ([], "def test(a: Tuple[bool, bool, bool]) -> bool:\n    def g(a: Tuple[bool, bool]) -> bool:\n        return a[0] and a[1]\n    r = False\n    for x in a:\n        r = r ^ x\n    return r"),
+    ([], "def test(a: Tuple[bool, bool, bool]) -> bool:\n    def g(a: Tuple[bool, bool]) -> bool:\n        return a[0] and a[1]\n    r = g((a[2], a[1]))\n    for x in a:\n        r = r ^ x\n    return r"),
+    ([], "def test(a: Tuple[bool, bool, bool], i: Qint[2]) -> bool:\n    def g(b: bool) -> bool:\n        a = (b, not b)\n        return a[1]\n    return a[i] ^ g(a[0])"),
+    ([], "def test(a: Tuple[bool, bool]) -> bool:\n    def g(a: Tuple[bool, bool, bool]) -> bool:\n        r = True\n        for x in a:\n            r = r and x\n        return r\n    return g((a[0], a[1], a[0])) ^ all(a)"),
+    ([], "def test(c: bool, n: Qint[2]) -> Qint[2]:\n    def g(c: Qint[2]) -> Qint[2]:\n        n = 3\n        return c + n\n    return g(n) if c else n"),
 ]
 
 
